@@ -116,6 +116,8 @@ def dstr(d):
         return 'sizeof=%s' % d.get('v')
     if k == 'init':
         return '{%s}' % ','.join(dstr(a) for a in d['e'])
+    if k == 'elem':
+        return 'elem(%s)' % dstr(d.get('of'))
     if k == 'deep':
         return '...'
     return '?%s' % d.get('c', k)
